@@ -1,7 +1,7 @@
 PROP = dict(
     rerun_mismatch=True,  # a mismatching model case is generated and evaluated again (and a third time with relaxed wall-clock bounds) before it is reported
     gen=["layouts"],
-    proof_files=["Properties/C05.v", "Proofs/ConnBase.v", "Proofs/ConnSched.v", "Proofs/ConnC14.v", "Proofs/ConnC16.v", "Proofs/ConnC05.v"],
+    proof_files=["Properties/C05.v", "Proofs/ConnBase.v", "Proofs/ConnSched.v", "Proofs/ConnC14.v", "Proofs/ConnC16.v", "Proofs/ConnC05.v", "Proofs/ConnC15.v", "Proofs/ConnLive.v"],
     model_files=["Model/ConnLTS.v", "Model/ConnRun.v"],
     trusted=["scripted net.Conn + goroutine-dump quiescence detection (harness/transport.go, harness/conn_world.go)", "Model/Pdu.v as the meaning of frames and ReadPDU items (compared with the implementation on every frame)"],
     assumptions=["a single net.Conn.Write call is atomic and completes", "Go scheduler fairness, timers and the Go memory model are runtime facts (liveness stated as enabledness)"],
